@@ -416,6 +416,9 @@ def ambient(ctx):
                     src = "clock:chrono"
                 elif p.startswith("std::env::var") or p.startswith("std::env::vars") or p == "std::env::args":
                     src = "env:" + p.split("::")[-1]
+                elif "chrono::Local" in p or "chrono::offset::local::Local" in p or "chrono::offset::Local" in p or any(
+                        "chrono::Local" in cr.ty_str(g) or "offset::local::Local" in cr.ty_str(g) for g in ([t["fn"]["self"]] if "self" in t["fn"] else []) + list(t["fn"].get("ga", []))):
+                    src = "env:timezone(chrono::Local)"
                 elif p.startswith(("rand::", "getrandom::")) or p == "std::collections::hash_map::RandomState::new" and False:
                     src = "random"
                 elif d == "std::fmt::Pointer::fmt" or p == "core::fmt::rt::Argument::new_pointer":
